@@ -126,7 +126,29 @@ class Folder:
             else:
                 raise Unsupported("terminator %s" % k)
 
+    def const_item(self, name):
+        """Value of a crate-local `const` item: its initialiser is folded once (always with checks on: the
+        compiler evaluates it that way, a failing check there is a build error)."""
+        from .facts import norm_name
+        cache = self.__dict__.setdefault("_consts", {})
+        nm = norm_name(name)
+        if nm not in cache:
+            b = self.P.body(nm)
+            if b is None:
+                raise Unsupported("const item %s has no body in the facts" % nm)
+            sub = Folder(self.P, "checked", self.max_steps, self.depth)
+            try:
+                cache[nm] = sub.run(b, [])
+            except Panic as p:
+                raise Unsupported("const item %s fails to evaluate (%s)" % (nm, p.kind))
+        v = cache[nm]
+        return list(v) if isinstance(v, list) else v
+
     def intrinsic(self, nm, f, argv, t):
+        if nm in ("std::cmp::Ord::min", "std::cmp::min") and len(argv) == 2 and all(isinstance(a, int) for a in argv):
+            return min(argv)
+        if nm in ("std::cmp::Ord::max", "std::cmp::max") and len(argv) == 2 and all(isinstance(a, int) for a in argv):
+            return max(argv)
         m = re.search(r"<impl (i|u)(8|16|32|64|128|size)>::(\w+)$", nm)
         if m:
             ty = m.group(1) + m.group(2)
@@ -149,7 +171,14 @@ class Folder:
 
     def store(self, body, env, place, v):
         if not place["p"]:
-            env[place["l"]] = v
+            env[place["l"]] = list(v) if isinstance(v, list) else v
+            return
+        if len(place["p"]) == 1 and isinstance(place["p"][0], dict) and "idx" in place["p"][0] and isinstance(env.get(place["l"]), list):
+            i = env.get(place["p"][0]["idx"])
+            arr = env[place["l"]]
+            if not isinstance(i, int) or not 0 <= i < len(arr):
+                raise Unsupported("array store out of range")
+            arr[i] = v
             return
         raise Unsupported("store through projection")
 
@@ -168,6 +197,13 @@ class Folder:
                     raise Unsupported("downcast mismatch")
             elif e == "*":
                 pass
+            elif isinstance(e, dict) and "idx" in e and isinstance(v, list):
+                i = env.get(e["idx"])
+                if not isinstance(i, int) or not 0 <= i < len(v):
+                    raise Unsupported("array read out of range")
+                v = v[i]
+            elif isinstance(e, dict) and "ci" in e and isinstance(v, list):
+                v = v[int(e["ci"])]
             else:
                 raise Unsupported("projection %s" % (e,))
         return v
@@ -179,6 +215,10 @@ class Folder:
         if k == "const":
             if "int" in o:
                 return o["int"]
+            if "uneval" in o:
+                return self.const_item(o["uneval"])
+            if o.get("ty") == "()":
+                return ()
             raise Unsupported("constant %s" % o.get("v"))
         raise Unsupported("operand")
 
@@ -243,6 +283,14 @@ class Folder:
             raise Unsupported("binop %s" % op)
         if r == "agg" and rv["ak"] == "tuple":
             return tuple(self.operand(body, env, x) for x in rv["ops"])
+        if r == "agg" and rv["ak"] == "array":
+            return [self.operand(body, env, x) for x in rv["ops"]]
+        if r == "repeat":
+            m = re.match(r"^(\d+)", str(rv.get("n", "")))
+            if not m or int(m.group(1)) > 4096:
+                raise Unsupported("repeat count %s" % rv.get("n"))
+            x = self.operand(body, env, rv["a"])
+            return [x for _ in range(int(m.group(1)))]
         raise Unsupported("rvalue %s" % r)
 
 
